@@ -55,6 +55,8 @@ def cases(rng, tier):
         yield vc.gen_catch_siblings(rng)
     for _ in range(fw.tier_scale(tier, 120, 1200)):
         yield gen_nts(rng)
+    for _ in range(fw.tier_scale(tier, 200, 2000)):
+        yield gen_el(rng)
 
 
 def gen_nts(rng):
@@ -70,8 +72,100 @@ def gen_nts(rng):
             "dispose_at": end if rng.random() < 0.7 else None, "raise_at": end if rng.random() < 0.4 else None}
 
 
+def gen_el(rng):
+    """EventLoopScheduler.schedule_periodic (= PeriodicScheduler.schedule_periodic over the event loop's own schedule_relative)
+    under a controlled clock: `now` is overridden and a timed Condition.wait(t) advances the clock by t instead of sleeping.
+    The action advances the clock by 0 .. 3 periods per call, disposes its handle / raises inside the k-th call."""
+    period_us = rng.choice([1000, 2000, 5000])
+    st0 = rng.choice([0, 0, 5, -2])
+    adv = [rng.choice([0, 0, period_us // 2, period_us, 2 * period_us, 3 * period_us]) for _ in range(8)]
+    r = rng.random()
+    if r < 0.25:
+        adv = [0] * 8
+    elif r < 0.4:
+        adv = [rng.choice([period_us, 2 * period_us])] * 8
+    end = rng.randrange(0, 7)
+    dispose_at = end if rng.random() < 0.7 else None
+    raise_at = end if (dispose_at is None or rng.random() < 0.25) else None
+    return {"op": "el_case", "period_us": period_us, "adv": adv, "st0": st0, "dispose_at": dispose_at, "raise_at": raise_at}
+
+
+def el_model_request(case):
+    """the same job on the Lean periodic model: in-call clock advance = scheduler.sleep inside the action"""
+    st0, p = case["st0"], case["period_us"]
+    fn = {"pid": 1, "raise_at": [] if case["raise_at"] is None else [st0 + case["raise_at"]],
+          "dispose_at": [] if case["dispose_at"] is None else [st0 + case["dispose_at"]],
+          "sleep_at": [[st0 + k, a] for k, a in enumerate(case["adv"])]}
+    T = 10 * max([p] + case["adv"]) + p
+    return {"op": "per_script", "clock": 0, "fns": [fn], "ops": [["periodic", 1, p, st0, False], ["advance_to", T]],
+            "handler_true": [], "handler_default": False}
+
+
 def model_request(case):
+    if case["op"] == "el_case":
+        return el_model_request(case)
     return vc.per_model_request(case) if case["op"] == "per_script" else None
+
+
+def _run_el(case):
+    import threading
+    from datetime import timedelta
+
+    from reactivex.internal.constants import UTC_ZERO
+    from reactivex.scheduler import EventLoopScheduler
+
+    clock = [0]
+    threads, died = [], []
+
+    class VirtualCondition(threading.Condition):
+        """a timed wait is the loop thread sleeping until the next due time: jump the controlled clock instead"""
+
+        def wait(self, timeout=None):
+            if timeout is not None:
+                clock[0] += round(timeout * 1e6)
+                return False
+            return super().wait(3.0)    # untimed wait (nothing queued): bounded
+
+    class Controlled(EventLoopScheduler):
+        @property
+        def now(self):
+            return UTC_ZERO + timedelta(microseconds=clock[0])
+
+    def factory(target):
+        def guarded():
+            try:
+                target()
+            except BaseException as e:  # noqa  the loop thread dies with the action's exception
+                died.append(fw.err_name(e))
+
+        t = threading.Thread(target=guarded, daemon=True)
+        threads.append(t)
+        return t
+
+    sched = Controlled(thread_factory=factory, exit_if_empty=True)
+    sched._condition = VirtualCondition(threading.Lock())
+    calls, handle = [], []
+    st0 = case["st0"]
+
+    def action(state):
+        k = state - st0
+        calls.append([1, clock[0], state])
+        if len(calls) > 40:
+            raise SystemExit("runaway")
+        clock[0] += case["adv"][k % len(case["adv"])]
+        if case["dispose_at"] is not None and k == case["dispose_at"]:
+            handle[0].dispose()
+        if case["raise_at"] is not None and k == case["raise_at"]:
+            raise fw.InjectedError(f"p1s{state}")
+        return state + 1
+
+    with sched._condition:   # hold the loop thread back until the handle is stored
+        handle.append(sched.schedule_periodic(case["period_us"] / 1e6, action, st0))
+    for t in threads:
+        t.join(5.0)
+    alive = any(t.is_alive() for t in threads)
+    sched.dispose()
+    return {"log": calls, "died": died, "alive_after_join": alive}
 
 
 def _run_nts(case):
@@ -158,6 +252,9 @@ def _run_timer(case):
 
 
 def impl(case):
+    if case["op"] == "el_case":
+        st, res = vc.alarm_timeout(_run_el, (case,), 14.0)
+        return res if st == "ok" else {"hang": True, "watchdog_s": 14.0}
     if case["op"] == "nts_case":
         st, res = vc.alarm_timeout(_run_nts, (case,), 12.0)
         return res if st == "ok" else {"hang": True, "watchdog_s": 12.0}
@@ -168,10 +265,35 @@ def impl(case):
 
 
 def canon_impl(case, out):
+    if case["op"] == "el_case":
+        return {"hang": True} if out.get("hang") else {"log": out["log"]}
     return out if case["op"] in ("timer_case", "nts_case") else vc.canon_impl(case, out)
 
 
-canon_model = vc.canon_model
+def canon_model(case, resp):
+    if case["op"] == "el_case":
+        return resp if "error" in resp else {"log": resp["log"]}
+    return vc.canon_model(case, resp)
+
+
+def el_oracle(case, out):
+    """property text on the controlled clock: state threaded, one call per period — call k+1 starts max(period, time spent in
+    call k) after call k started, the first one period after scheduling — and no call after dispose / raise"""
+    st0, p = case["st0"], case["period_us"]
+    ends = [k for k in (case["dispose_at"], case["raise_at"]) if k is not None]
+    last = min(ends)
+    exp, t = [], p
+    for k in range(last + 1):
+        exp.append([1, t, st0 + k])
+        t += max(p, case["adv"][k % len(case["adv"])])
+    if out["log"] != exp:
+        return (f"EventLoopScheduler.schedule_periodic (controlled clock, period {p} us, per-call clock advance {case['adv']}, dispose in call "
+                f"{case['dispose_at']}, raise in call {case['raise_at']}): calls (clock, state) {[c[1:] for c in out['log'][:12]]}, expected {[c[1:] for c in exp]}")
+    if out["alive_after_join"]:
+        return "the event-loop thread was still running 5 s after the periodic job had ended"
+    if case["raise_at"] is not None and (case["dispose_at"] is None or case["raise_at"] <= case["dispose_at"]) and out["died"] != [f"p1s{st0 + case['raise_at']}"]:
+        return f"the action's exception did not propagate out of the loop thread: {out['died']}"
+    return None
 
 
 def oracle(case, out):
@@ -179,6 +301,8 @@ def oracle(case, out):
         return "advance_to did not return within the watchdog"
     if case["op"] == "nts_case":
         return nts_oracle(case, out)
+    if case["op"] == "el_case":
+        return el_oracle(case, out)
     if case["op"] == "timer_case":
         c0, d, p, T, D = case["clock"], case["due"], case["period"], case["T"], case["dispose"]
         exp = []
@@ -197,6 +321,8 @@ def oracle(case, out):
 
 
 def nontrivial(case, out):
+    if case["op"] == "el_case":
+        return len(out.get("log", [])) >= 2
     if case["op"] == "nts_case":
         return len(out.get("calls", [])) >= 2
     if case["op"] == "timer_case":
@@ -208,6 +334,10 @@ def nontrivial(case, out):
 
 
 def bucket(case, out):
+    if case["op"] == "el_case":
+        yield "eventloop:" + ("no-advance" if not any(case["adv"]) else "overrun" if all(a >= case["period_us"] for a in case["adv"]) else "mixed")
+        yield "eventloop:" + ("raise" if case["raise_at"] is not None else "dispose")
+        return
     if case["op"] == "nts_case":
         yield "newthread:" + ("overrun" if all(a >= case["period_us"] for a in case["adv"]) else "mixed")
         return
